@@ -640,18 +640,23 @@ sqf::runtime::runtime::result sqf::runtime::runtime::execute(sqf::runtime::runti
                 }
                 if (dinf.has_value())
                 {
-                    if (m_context_active->empty())
+                    // A line step ends in front of the first instruction of another line. The
+                    // next instruction is that of the innermost frame which has one left: a
+                    // block that just ran to its end continues in its caller.
+                    bool other_line = false;
+                    for (auto it = m_context_active->frames_rbegin(); it != m_context_active->frames_rend(); ++it)
                     {
-                        continue;
-                    }
-                    auto next_inst = m_context_active->current_frame().peek(success);
-                    if (success)
-                    { // A line step ends in front of the first instruction of another line
-                        auto next_dinf = (*next_inst)->diag_info();
-                        if (dinf->line != next_dinf.line || !(dinf->path == next_dinf.path))
+                        auto next_inst = it->peek(success);
+                        if (success)
                         {
+                            auto next_dinf = (*next_inst)->diag_info();
+                            other_line = dinf->line != next_dinf.line || !(dinf->path == next_dinf.path);
                             break;
                         }
+                    }
+                    if (other_line)
+                    {
+                        break;
                     }
                 }
             }
